@@ -1,13 +1,17 @@
 #!/bin/bash
-# usage: tools/seed_test.sh <patch.diff> <property> [tier]   -- applies a seeded change to /repo, runs the check, reverts.
+# usage: tools/seed_test.sh <patch.diff> <property> [tier]
+# Applies a seeded change to a scratch worktree of /repo's HEAD (outside /repo and /verif), runs the check
+# against that tree (VERIF_REPO), and removes the worktree again. /repo itself is not touched.
 set -u
 patch="$1"; prop="$2"; tier="${3:-quick}"
-cd /repo || exit 2
-if ! git diff --quiet; then echo "seed_test: /repo has uncommitted changes"; exit 2; fi
-if ! git apply --check "$patch" 2>/dev/null; then echo "seed_test: patch does not apply: $patch"; exit 3; fi
-git apply "$patch"
-cd /verif && ./check "$prop" --tier "$tier" 2>&1 | grep -v "^INFRA" | tail -4
+wt="/tmp/seedt/$$-$prop"
+mkdir -p /tmp/seedt
+git -C /repo worktree add --detach "$wt" HEAD >/dev/null 2>&1 || { echo "seed_test: cannot create worktree"; exit 2; }
+cleanup() { git -C /repo worktree remove --force "$wt" >/dev/null 2>&1; rm -rf "$wt"; }
+trap cleanup EXIT
+if ! git -C "$wt" apply "$patch" 2>/dev/null; then echo "seed_test: patch does not apply: $patch"; exit 3; fi
+cd /verif && VERIF_REPO="$wt" ./check "$prop" --tier "$tier" --evidence-dir "/tmp/seedt/ev-$$" 2>&1 | grep -v "^INFRA" | tail -4
 rc=${PIPESTATUS[0]}
-git -C /repo checkout -- . 
+rm -rf "/tmp/seedt/ev-$$"
 echo "seed_test: $patch on $prop/$tier -> check exit $rc"
 exit 0
